@@ -35,7 +35,7 @@ SPEC = dict(
         'ctor_flag': dict(file=AQ, kind='expr',
                           sig=r'explicit atomic_intrusive_queue\(bool initiallyActive\) noexcept\s*: head_\((.*?)\) \{\}'),
         'producer_inactive_value': dict(file=AQ, sig=r'void\* producer_inactive_value\(\) const noexcept'),
-        'try_mark_active': dict(file=AQ, sig=r'bool try_mark_active\(\) noexcept', must_contain=[r'compare_exchange']),
+        'try_mark_active': dict(file=AQ, sig=r'bool try_mark_active\(\) noexcept'),
         'enqueue_or_mark_active': dict(file=AQ, sig=r'bool enqueue_or_mark_active\(Item\* item\) noexcept', loops={0: EOM_LOOP}),
         'enqueue': dict(file=AQ, sig=r'bool enqueue\(Item\* item\) noexcept', loops={0: ENQ_LOOP}),
         'dequeue_all': dict(file=AQ, sig=r'intrusive_queue<Item, Next> dequeue_all\(\) noexcept', ctx=ret_iq),
